@@ -47,6 +47,7 @@ import ast
 import os
 import re
 import sys
+import time
 from decimal import Decimal
 from fractions import Fraction
 
@@ -94,7 +95,20 @@ RULE = {
              "offset) on the classes of one byte-order configuration per width and signedness (big and little alternate with "
              "the width; rejection does not depend on the byte order), a rotating selection (lo-1 or hi+1, one more candidate or "
              "a non-integer, two cuts) on all other classes, because each PacketError "
-             "costs the library 0.5-4 ms. One evaluation = one (class, input) operation. distinct non-trivial = distinct (class, "
+             "costs the library 0.5-4 ms. HISTORY part (rejection must not depend on what went through the same field before): "
+             "on every class, first thing after its definition, step-by-step sequences through the one class / field object: "
+             "'equal' = pack integer v (== oracle bytes) then a non-integer that compares equal to v and hashes like it -> "
+             "PacketError; 'same' = the same on one packet object, then v again (== oracle bytes); 'reverse' = the non-integer "
+             "first (PacketError), then v (== oracle bytes), then the non-integer again; 'overwrite' = unpack the bytes of v, "
+             "(every other class: re-pack,) overwrite x with the equal non-integer -> PacketError, v again == bytes; 'modular' = "
+             "pack v then v+2^(8n), v-2^(8n), and -1 <-> 2^(8n)-1 (same bytes modulo the width) -> PacketError; and after the "
+             "main part used the class: 'stale' = a non-integer equal to a boundary value packed long before. Non-integer kinds: "
+             "float(v), -0.0 (v=0), Fraction(v), Decimal(v), complex(v,0); v from seeded pools of distinct values (top-three-"
+             "bytes, below 2^53, small; full-width seeded values for Fraction/Decimal, e.g. not a float for n>=8); in the sequence "
+             "layouts the value is a list element (position alternates). The full classes run equal x 5 kinds, same, reverse, "
+             "overwrite (rotating kind), modular (3 rejections), two stale and one late equal history, plus two observed-only "
+             "ones (objects with __index__ / with only __eq__ and __hash__); every other class runs one of the 30 (scenario, "
+             "kind) combinations, rotating. One evaluation = one (class, input) operation. distinct non-trivial = distinct (class, "
              "pattern group) pairs; a group (one lane x 256 values, the boundary set, ...) always contains patterns whose "
              "big/little and signed/unsigned readings differ, so a wrong order, sign or width cannot pass a group.",
     "thorough": "as quick with widths 1..33, all 25 (field endianness x class default) combinations for n<=16 (the 13 of quick "
@@ -110,8 +124,16 @@ ASSUMPTIONS = [
     "implemented as constant little-endian is indistinguishable on this machine), no spelling and no class default means big-endian "
     "(docs/reference/03_int_field.md)",
     "an explicit field endianness takes precedence over the class-level default",
-    "bool is an int: True/False are not treated as non-integers (what they pack to is counted, not judged); "
-    "objects with __index__ and integral floats (2.0) are not judged",
+    "bool is an int: True/False are not treated as non-integers (what they pack to is counted, not judged)",
+    "a value of type float, fractions.Fraction, decimal.Decimal or complex is a non-integer even when it is numerically "
+    "integral (7.0, -0.0, Fraction(7), Decimal(7), 7+0j): 'a non-integer raises PacketError' is read by type, and it must hold "
+    "whatever was packed or parsed through the field before (the unchanged library rejects all of them on the struct and on "
+    "the arbitrary-width path)",
+    "objects of user classes that merely compare equal to an int - with __index__ (struct accepts them, the arbitrary-width "
+    "path does not) or with nothing but __eq__/__hash__ - are observed and counted (hist_observed_*), not judged",
+    "history sequences run on the class object of the run: 'pre' histories on the still unused class (a replay on a freshly "
+    "defined class is the same execution), 'stale' histories rely on boundary values packed by the main part (a replay "
+    "packs them first)",
     "a truncated input (fewer than n bytes left) that makes unpack raise something other than PacketError is counted, not "
     "judged here (C12); only a successful decode of fewer than n bytes is a C05 violation",
     "a field returned by a Ref selector is compiled by bisturi with an empty configuration: the class-level default is not "
@@ -449,6 +471,7 @@ class Ctx(object):
     def __init__(self, run):
         self.run = run
         self.stop = False
+        self.hist_seconds = 0.0
 
     def report(self, rec, op, what, got):
         run = self.run
@@ -1097,7 +1120,8 @@ def build_history(rec, scen, kind, v, comp, pos, i, lean, variant=0):
                      h.counts(kind, "hist_equal_nonint_rejections"))
     elif scen == "overwrite":
         h.unpack(v, "history: parse, overwrite with an equal non-integer, pack")
-        h.pack(v, "re-pack of the parsed packet")
+        if variant % 2 == 0:
+            h.pack(v, "re-pack of the parsed packet")
         h.set_x(obj)
         h.reject("the non-integer %s written over the parsed field (parsed value: the equal integer %d)" % (d, v),
                  h.counts(kind, "hist_equal_nonint_rejections", "hist_unpack_overwrite_rejections"))
@@ -1124,7 +1148,9 @@ def build_history(rec, scen, kind, v, comp, pos, i, lean, variant=0):
 def run_history(ctx, rec, scen, kind, steps, phase):
     """Execute one history on rec.cls and record the outcome.  False = stop working on this class."""
     run = ctx.run
+    t0 = time.time()
     status, idx, what, got, observed = run_steps(rec.cls, steps)
+    ctx.hist_seconds += time.time() - t0
     executed = [st for st in steps if not st.get("replay_only")]
     run.case(key="%s|history:%s:%s:%s" % (rec.name, phase, scen, kind),
              n=sum(1 for st in executed if st["op"] in ("pack", "reject", "unpack", "observe")))
@@ -1174,7 +1200,7 @@ def history_pre(ctx, rec, pool, full, salt):
         if ctx.stop or rec.bad:
             return
         v = tk.take(kind, prefer_wide=(salt + j) % 2 == 0)
-        steps = build_history(rec, scen, kind, v, comp, (salt + j) % 2, j, lean=not full, variant=salt // 30)
+        steps = build_history(rec, scen, kind, v, comp, (salt + j) % 2, j, lean=not full, variant=salt // 30 + salt // 2)
         if steps is None:
             run.count("hist_no_equal_nonint_of_kind")
             continue
@@ -1418,6 +1444,7 @@ def run(run):
             for mn in modnames:
                 sys.modules.pop(mn, None)
     finally:
+        run.extra["history_part_seconds"] = round(ctx.hist_seconds, 1)
         common.drop_scratch(scratch)
 
 
@@ -1461,7 +1488,14 @@ def replay(run, rec):
     try:
         module, _ = render.load_source(w["class_src"], scratch)
         cls = getattr(module, w["class_name"])
-        status, what, got = perform(cls, op_from_witness(w["op"]))
+        if "history" in w:
+            # the whole recorded sequence, on the freshly defined class (steps the run had already done on the class
+            # through its main part - replay_only - are executed too)
+            status, idx, what, got, _obs = run_steps(cls, w["history"]["steps"], replaying=True)
+            if status == "violation":
+                what = "%s [history %s, step %d]" % (what, w["history"]["scenario"], idx)
+        else:
+            status, what, got = perform(cls, op_from_witness(w["op"]))
         run.case(key="replay", nontrivial=True)
         print("replay: %s -> %s %s got=%s" % (w["class_name"], status, what or "", got))
         if status == "violation":
